@@ -20,7 +20,7 @@ META = {
 }
 
 
-def _mk_site(shape, kind, n, emit_too):
+def _mk_site(shape, kind, n, emit_too, lo=0, hi=40):
     role = None
     tk = kind
     if kind.startswith("IDENTIFIER-"):
@@ -28,14 +28,14 @@ def _mk_site(shape, kind, n, emit_too):
 
     def S_site(si: int, v: str) -> int:
         """
-        pre: 0 <= si <= 40 and len(v) <= N
+        pre: LO <= si <= HI and len(v) <= N
         post: _ != 0
         """
         return dm.run_site(shape, tk, si, v, check_emit=emit_too, role_filter=role)
 
     def S_key_site(si: int, ki: int) -> int:
         """
-        pre: 0 <= si <= 40 and 0 <= ki <= 7
+        pre: LO <= si <= HI and 0 <= ki <= 7
         post: _ != 0
         """
         # keys are hashed by the parser's duplicate tracking (a symbolic key would only be enumerated): solver-indexed pool
@@ -43,7 +43,8 @@ def _mk_site(shape, kind, n, emit_too):
 
         return dm.run_site(shape, tk, si, dm.KEY_POOL[realize(ki)], check_emit=emit_too, role_filter=role)
 
-    S_site.__doc__ = S_site.__doc__.replace("N", str(n))
+    S_site.__doc__ = S_site.__doc__.replace("N", str(n)).replace("LO", str(lo)).replace("HI", str(hi))
+    S_key_site.__doc__ = S_key_site.__doc__.replace("LO", str(lo)).replace("HI", str(hi))
     return S_key_site if role == "key" else S_site
 
 
@@ -79,6 +80,10 @@ def obligations(tier, prop=PROP, emit_too=False):
                 n = 2  # 21 sites
             if emit_too and n > 0:
                 n = n - 1  # comparing two emitted texts with a symbolic site costs about a character
-            obs.append(xh_ob(prop, f"S.symbolic-site[{shape},{kind}]", _mk_site(shape, kind, n + (1 if th else 0), emit_too), timeout=3000 if th else 1500,
-                             bound=(f"shape '{shape}': every key site in turn carries one of {len(dm.KEY_POOL)} keys chosen by the solver (fresh, one letter, duplicate of a sibling, parent's name, META field name, constructor name ...)" if kind.endswith("key") else f"shape '{shape}': every {kind} token site of the canonical token layout in turn carries a symbolic value |v| <= {n + (1 if th else 0)}") + (" and the re-emitted text equals the model's canonical text" if emit_too else ""), functions=pf))
+            nsites = dm.count_sites(shape, kind)
+            per = 3 if kind in ("STRING", "COMMENT") else (5 if kind.endswith("value") else 9)
+            for lo in range(0, nsites, per):
+                hi = min(lo + per, nsites) - 1
+                obs.append(xh_ob(prop, f"S.symbolic-site[{shape},{kind},sites {lo}-{hi}]", _mk_site(shape, kind, n + (1 if th else 0), emit_too, lo, hi), timeout=3000 if th else 1200,
+                                 bound=(f"shape '{shape}': key sites {lo}..{hi} (of {nsites}) in turn carry one of {len(dm.KEY_POOL)} keys chosen by the solver (fresh, one letter, duplicate of a sibling, parent's name, META field name, constructor name ...)" if kind.endswith("key") else f"shape '{shape}': {kind} token sites {lo}..{hi} (of {nsites}) of the canonical token layout in turn carry a symbolic value |v| <= {n + (1 if th else 0)}") + (" and the re-emitted text equals the model's canonical text" if emit_too else ""), functions=pf))
     return select(obs, tier)
